@@ -321,8 +321,10 @@ func (n *NodeProcessor) SendWrite() (int, error) {
 				n.Logger.Error("Failed to truncate queue", zap.Uint64("node", n.nodeID), zap.Uint64("shardID", n.shardID), zap.Error(err))
 			}
 		} else {
-			// Try to skip it.
-			if err := n.queue.Advance(); err != nil {
+			// End of the head segment: move on to the next segment if there is
+			// one. The head position must not be advanced here: a block appended
+			// since Current saw the end is the current block now.
+			if err := n.queue.TrimExhaustedHead(); err != nil {
 				n.Logger.Error("Failed to advance queue", zap.Uint64("node", n.nodeID), zap.Uint64("shardID", n.shardID), zap.Error(err))
 			}
 		}
